@@ -95,6 +95,8 @@ func checkC20(p *Prog, r *Report) {
 		return
 	}
 	checkFieldLoopsFull(p, r, "C20")
+	r.rule("C20.not-found-panic: every explicit panic of Wrapper.getField / setField is reached only with an empty key, with a value whose reflect type was found to differ from the field's, or after the scan over all NumField() fields was exhausted (directly, or through a search helper whose not-found answer - a negative index tested as negative, or found == false - is given only after its own exhaustive scan)")
+	checkNotFoundPanics(p, r, "C20")
 	checkC20IDAndPurity(p, r)
 	r.rule("C20.rel-types: Check compares a relationship field's reflect.Type.String() with exactly \"string\" and \"[]string\"")
 	checkRelFieldTypes(p, r, chk)
@@ -392,6 +394,9 @@ func reflectTypeOf(v ssa.Value) ssa.Value {
 }
 
 func reflectSetJustified(c *ssa.Call, recv, arg ssa.Value) (bool, string) {
+	if ok, why := reflectSetJustifiedAt(factsAt(c.Block()), recv, arg); ok {
+		return ok, why
+	}
 	if phi, ok := arg.(*ssa.Phi); ok && len(phi.Edges) > 0 {
 		// one Set after the branches that compute the value: each incoming
 		// value is justified under the outcomes that hold on its edge
@@ -776,22 +781,51 @@ func checkBuildWrapAgreement(p *Prog, r *Report) {
 	// (only the selecting questions - is it an attribute, is it a relationship -
 	// are compared here: cardinality or the inverse may be computed as a value
 	// by one sibling and by a branch in the other)
-	selectors := func(b buildPath) string {
-		var ks []string
+	// "the api tag is attr" and "its first part is rel" exclude each other:
+	// a sibling that asks only one of them on some path (a switch) has
+	// answered the other; a path that answers both with yes is infeasible
+	selectors := func(b buildPath) (string, bool) {
+		m := map[string]string{}
 		for q, v := range b.answer {
 			if strings.HasPrefix(q, "is-attr") || strings.HasPrefix(q, "is-rel") {
-				ks = append(ks, q+"="+v)
+				m[q] = v
 			}
 		}
+		for q, v := range b.answer {
+			if v != "true" {
+				continue
+			}
+			other := ""
+			switch {
+			case strings.HasPrefix(q, "is-attr"):
+				other = "is-rel" + strings.TrimPrefix(q, "is-attr")
+			case strings.HasPrefix(q, "is-rel"):
+				other = "is-attr" + strings.TrimPrefix(q, "is-rel")
+			default:
+				continue
+			}
+			if m[other] == "true" {
+				return "", false
+			}
+			m[other] = "false"
+		}
+		var ks []string
+		for q, v := range m {
+			ks = append(ks, q+"="+v)
+		}
 		sort.Strings(ks)
-		return strings.Join(ks, " ")
+		return strings.Join(ks, " "), true
 	}
 	selA, selB := map[string]bool{}, map[string]bool{}
 	for _, a := range bp {
-		selA[selectors(a)] = true
+		if k, ok := selectors(a); ok {
+			selA[k] = true
+		}
 	}
 	for _, b := range wp {
-		selB[selectors(b)] = true
+		if k, ok := selectors(b); ok {
+			selB[k] = true
+		}
 	}
 	_, _ = matchedA, matchedB
 	lonely := ""
@@ -1206,4 +1240,128 @@ func constStringSet(p *Prog, gl *ssa.Global) (map[string]bool, bool) {
 		}
 	}
 	return set, len(set) > 0
+}
+
+// checkNotFoundPanics implements C20.not-found-panic: each explicit panic of
+// Wrapper.getField / setField is reached only (a) with an empty key, (b) with
+// a value whose type was found to differ from the field's, or (c) after the
+// scan over all NumField() fields was exhausted - directly, or through a
+// search helper whose "not found" answer (a negative index tested as such, or
+// found == false) is only given after its own scan was exhausted. The
+// justification "only reachable with an undeclared key" rests on (c).
+func checkNotFoundPanics(p *Prog, r *Report, prefix string) {
+	isNumFieldBound := func(cond ssa.Value, truth bool) bool {
+		bo, ok := cond.(*ssa.BinOp)
+		if !ok || truth {
+			return false
+		}
+		if bo.Op != token.LSS {
+			return false
+		}
+		c, _ := callOf(bo.Y)
+		return c != nil && c.Common().StaticCallee() != nil && fullName(c.Common().StaticCallee()) == "reflect.(Value).NumField"
+	}
+	// helperSaysNotFound: (cond, truth) states that the search helper g, called
+	// in the condition, reported "not found"; g must be exhaustive
+	var exhaustive func(g *ssa.Function) bool
+	exhaustive = func(g *ssa.Function) bool {
+		if g == nil || g.Blocks == nil || !smallHelper(g) {
+			return false
+		}
+		n := 0
+		for _, b := range g.Blocks {
+			ret, ok := b.Instrs[len(b.Instrs)-1].(*ssa.Return)
+			if !ok || len(ret.Results) == 0 {
+				continue
+			}
+			notFound := false
+			switch len(ret.Results) {
+			case 1:
+				if cv, ok := constInt(ret.Results[0]); ok && cv < 0 {
+					notFound = true
+				}
+			case 2:
+				if c, ok := ret.Results[1].(*ssa.Const); ok && c.Value != nil && c.Value.Kind() == constant.Bool && !constant.BoolVal(c.Value) {
+					notFound = true
+				}
+			}
+			if !notFound {
+				continue
+			}
+			n++
+			if !mustPassEdge(g, b, isNumFieldBound) {
+				return false
+			}
+		}
+		return n > 0
+	}
+	notFoundTest := func(cond ssa.Value, truth bool) bool {
+		switch x := cond.(type) {
+		case *ssa.BinOp:
+			c, _ := callOf(x.X)
+			k, isC := constInt(x.Y)
+			if c == nil || !isC || c.Common().StaticCallee() == nil || c.Common().StaticCallee().Signature.Results().Len() != 1 {
+				return false
+			}
+			neg := false // does (cond == truth) hold exactly for the negative results?
+			switch {
+			case x.Op == token.LSS && k == 0, x.Op == token.LEQ && k == -1, x.Op == token.EQL && k == -1:
+				neg = truth
+			case x.Op == token.GEQ && k == 0, x.Op == token.GTR && k == -1, x.Op == token.NEQ && k == -1:
+				neg = !truth
+			default:
+				return false
+			}
+			return neg && exhaustive(c.Common().StaticCallee())
+		case *ssa.Extract:
+			c, ok := x.Tuple.(*ssa.Call)
+			if !ok || x.Index != 1 || truth {
+				return false
+			}
+			return exhaustive(c.Common().StaticCallee())
+		}
+		return false
+	}
+	n := 0
+	for _, name := range []string{"(*Wrapper).getField", "(*Wrapper).setField"} {
+		f := p.Fn(name)
+		if f == nil {
+			r.fail("anchor %s not found", name)
+			continue
+		}
+		eachInstr(f, func(ins ssa.Instruction) {
+			pn, ok := ins.(*ssa.Panic)
+			if !ok {
+				return
+			}
+			n++
+			why := ""
+			for _, ef := range expandFacts(factsAt(pn.Block())) {
+				bo, ok := ef.Cond.(*ssa.BinOp)
+				if !ok {
+					continue
+				}
+				if bo.Op == token.EQL && ef.Truth {
+					for _, pr := range [][2]ssa.Value{{bo.X, bo.Y}, {bo.Y, bo.X}} {
+						if s, ok := constString(pr[1]); ok && s == "" && pr[0] == ssa.Value(f.Params[1]) {
+							why = "the key is empty"
+						}
+					}
+				}
+				if (bo.Op == token.NEQ && ef.Truth) || (bo.Op == token.EQL && !ef.Truth) {
+					if reflectTypeOf(stripValue(bo.X)) != nil && reflectTypeOf(stripValue(bo.Y)) != nil {
+						why = "the value's type differs from the field's"
+					}
+				}
+			}
+			if why == "" && mustPassEdge(f, pn.Block(), func(cond ssa.Value, truth bool) bool {
+				return isNumFieldBound(cond, truth) || notFoundTest(cond, truth)
+			}) {
+				why = "the scan over all fields found none with that json tag"
+			}
+			r.decide(why != "", prefix+".not-found-panic", name+":"+p.describe(pn), p.pos(pn.Pos()), "reached only when "+why,
+				name+" can panic although a declared field has the requested name: the panic is not confined to an empty key, a value of another type, or an exhausted scan of the struct's fields (e.g. the first field is treated as not found)")
+		})
+	}
+	r.floor("explicit panics in getField/setField", n, 4)
 }
